@@ -54,9 +54,23 @@ def unwrap_rows(f, c, arr, n):
     return rows
 
 
+def descr(rec):
+    return [[n, str(t)] for n, t in rec.dtype.descr]
+
+
 def call(c):
     f = c['f']
     try:
+        if f == 'specstr':
+            # scalar call, run2d given as an arbitrary string
+            r = sdss_specobjid(int(c['p']), int(c['fb']), int(c['m']), c['s'])
+            return {'ok': [int(x) for x in r], 'dtype': str(r.dtype)}
+        if f in ('unobjstr', 'unspecstr'):
+            # one ID given as an arbitrary string in a str ('U') or bytes ('S') array
+            arr = np.array([c['s'].encode('latin-1')]) if c.get('bytes') else np.array([c['s']])
+            kind = arr.dtype.kind
+            rows = unwrap_rows('unobj' if f == 'unobjstr' else 'unspec', {}, arr, 1)
+            return {'ok': rows, 'kind': kind}
         if f == 'objid':
             a = c['args']
             kw = {}
@@ -116,6 +130,14 @@ def call(c):
                     arr = buf[::2]
             before = arr.copy()
             out = {'ok': unwrap_rows(f, c, arr, len(ids))}
+            # record dtypes (field names, storage types) and, for specObjID, the run2d tags exactly as stored
+            if f == 'unobj':
+                out['dtypes'] = {'record': descr(unwrap_objid(arr))}
+            else:
+                us = unwrap_specobjid(arr, run2d_integer=False)
+                out['dtypes'] = {'integer': descr(unwrap_specobjid(arr, run2d_integer=True)), 'string': descr(us),
+                                 'index': descr(unwrap_specobjid(arr, run2d_integer=True, specLineIndex=True))}
+                out['tags'] = [str(x) for x in us.run2d]
             if not np.array_equal(arr, before):
                 out['inputs_modified'] = ['ids']
             try:
